@@ -556,26 +556,92 @@ def check_bivreq(part, spec):
     if not ok_form or X.biv_shading(k, gi, gv) != want or not set(a) <= set(gi) or not set(b) <= set(gv):
         part.violation("bivreq", case, {"got": [list(gi), list(gv)],
                                         "why": "returned requirements do not describe the pattern"})
-    # the same requirements given in another order / as one-shot iterators / with repetitions
+    # FRESH: the two lists handed out are the caller's; emptying / extending them must not change
+    # what the same object, or a new equal object, answers afterwards
+    first = (list(gi), list(gv))
+    try:
+        if isinstance(gi, list):
+            gi.clear()
+            gi.append(-1)
+        if isinstance(gv, list):
+            gv.reverse()
+            gv.append(k + 7)
+        again = obj.get_adjacent_requirements()
+        other = make(spec).get_adjacent_requirements()
+        if (list(again[0]), list(again[1])) != first or (list(other[0]), list(other[1])) != first:
+            part.violation("fresh", case, {"first": first, "after_damaging_the_result": [list(again[0]), list(again[1])],
+                                           "new_equal_object": [list(other[0]), list(other[1])]})
+    except Exception as exc:  # noqa
+        part.violation("fresh", case, {"exception": repr(exc)})
+    # FORMS: the same requirements in every form the signature (Iterable[int]) admits, positional
+    # and by keyword
     P = lib.Perm(patt)
-    forms = {"reversed": (tuple(reversed(a)), tuple(reversed(b))),
-             "iterator": (iter(a), iter(b))}
-    for fname, (fa, fb) in forms.items():
-        try:
-            if kind == "biv":
-                o2 = lib.BivincularPatt(P, fa, fb)
-            elif kind == "vinc":
-                o2 = lib.VincularPatt(P, fa)
-            else:
-                o2 = lib.CovincularPatt(P, fb)
-            same = frozenset(o2.shading) == frozenset(obj.shading)
-        except Exception as exc:  # noqa
-            part.violation("bivreq", dict(case, form=fname), {"exception": repr(exc)})
-            continue
-        if not same:
-            part.violation("bivreq", dict(case, form=fname),
-                           {"why": "same requirements in another form give another pattern"})
+    forms = {"reversed": lambda z: tuple(reversed(z)), "list": list, "set": set, "frozenset": frozenset,
+             "iterator": iter, "generator": lambda z: (v for v in z), "map": lambda z: map(int, z),
+             "repeated": lambda z: tuple(z) + tuple(z), "dict_keys": lambda z: dict.fromkeys(z).keys()}
+    for fname, f in forms.items():
+        for kw in (False, True):
+            try:
+                if kind == "biv":
+                    o2 = (lib.BivincularPatt(perm=P, adjacent_indices=f(a), adjacent_values=f(b)) if kw
+                          else lib.BivincularPatt(P, f(a), f(b)))
+                elif kind == "vinc":
+                    o2 = lib.VincularPatt(perm=P, adjacent_indices=f(a)) if kw else lib.VincularPatt(P, f(a))
+                else:
+                    o2 = lib.CovincularPatt(perm=P, adjacent_values=f(b)) if kw else lib.CovincularPatt(P, f(b))
+                same = frozenset(o2.shading) == frozenset(obj.shading) == want
+            except Exception as exc:  # noqa
+                part.violation("bivreq", dict(case, form=fname, keyword=kw), {"exception": repr(exc)})
+                continue
+            if not same:
+                part.violation("bivreq", dict(case, form=fname, keyword=kw),
+                               {"why": "same requirements in another form give another pattern"})
+            part.bump("forms:biv-constructions")
     part.add(1, 1 if (a or b) and k >= 1 else 0)
+
+
+SHADING_FORMS = {
+    "tuple": tuple, "reversed": lambda z: tuple(reversed(z)), "list": list, "set": set,
+    "frozenset": frozenset, "iterator": iter, "generator": lambda z: (c for c in z),
+    "map": lambda z: map(tuple, [list(c) for c in z]), "repeated": lambda z: tuple(z) + tuple(z),
+    "dict_keys": lambda z: dict.fromkeys(z).keys(),
+}
+
+
+def shard_meshforms(shard):
+    """FORMS for the MeshPatt constructor: the same cells as tuple / reversed / list / set /
+    frozenset / iterator / generator / map / with every cell twice / dict keys, positional and by
+    keyword; the object must have the reference occurrences in every text of S<=3 (searched
+    through occurrences_in(patt=...))."""
+    lo, hi = shard
+    lib = _lib()
+    part = Partial()
+    texts = [t for n in range(4) for t in R.perms(n)]
+    TT = [lib.Perm(t) for t in texts]
+    for spec, _ in _FAM["mesh2"][lo:hi]:
+        patt, cells = spec[1], spec[2]
+        P = lib.Perm(patt)
+        refs = [R.mesh_occurrences(patt, cells, t) for t in texts]
+        for fname, f in SHADING_FORMS.items():
+            for kw in (False, True):
+                case = dict(spec_case(spec), form=fname, keyword=kw)
+                try:
+                    obj = lib.MeshPatt(pattern=P, shading=f(cells)) if kw else lib.MeshPatt(P, f(cells))
+                except Exception as exc:  # noqa
+                    part.violation("forms", case, {"exception": repr(exc)})
+                    continue
+                for t, T, ref in zip(texts, TT, refs):
+                    try:
+                        got = sorted(obj.occurrences_in(patt=T)) if kw else sorted(obj.occurrences_in(T))
+                    except Exception as exc:  # noqa
+                        part.violation("forms", dict(case, text=list(t)), {"exception": repr(exc)})
+                        break
+                    if got != ref:
+                        part.violation("forms", dict(case, text=list(t)), {"expected": ref, "got": got})
+                        break
+                part.add(1, 1 if (cells and len(patt) >= 1 and fname not in ("tuple",)) else 0)
+                part.bump("forms:mesh-constructions")
+    return part
 
 
 def shard_bivreq(shard):
@@ -590,7 +656,10 @@ def shard_bivreq(shard):
 # mixed argument lists
 # --------------------------------------------------------------------------------------------
 
-def check_mixed(part, T, t, idxs, objs, c):
+_NOFORMS = object()
+
+
+def check_mixed(part, T, t, idxs, objs, c, basis=_NOFORMS):
     args = [objs[i] for i in idxs]
     exp_c = all(c[i] for i in idxs)
     exp_a = all(not c[i] for i in idxs)
@@ -602,10 +671,43 @@ def check_mixed(part, T, t, idxs, objs, c):
         return
     if got != (exp_c, exp_a, exp_a, exp_a):
         part.violation("mixed", case, {"expected": [exp_c, exp_a, exp_a, exp_a], "got": list(got)})
+        return
+    if basis is _NOFORMS:
+        return
+    # FORMS: the same patterns in every form contains(*patts) / avoids(*patts) / avoids_set(Iterable)
+    # admit; a Basis / MeshBasis of the patterns is avoided iff all of them are (not used for contains)
+    rev = args[::-1]
+    forms = {
+        "contains(*reversed)": lambda: T.contains(*rev) is exp_c,
+        "contains(*repeated)": lambda: T.contains(*(args + args)) is exp_c,
+        "avoids(*reversed)": lambda: T.avoids(*rev) is exp_a,
+        "avoids(*repeated)": lambda: T.avoids(*(args + args)) is exp_a,
+        "avoids_set(tuple)": lambda: T.avoids_set(tuple(args)) is exp_a,
+        "avoids_set(set)": lambda: T.avoids_set(set(args)) is exp_a,
+        "avoids_set(frozenset)": lambda: T.avoids_set(frozenset(args)) is exp_a,
+        "avoids_set(generator)": lambda: T.avoids_set(p for p in args) is exp_a,
+        "avoids_set(map)": lambda: T.avoids_set(map(lambda p: p, args)) is exp_a,
+        "avoids_set(patts=list)": lambda: T.avoids_set(patts=list(rev)) is exp_a,
+        "avoids_set(repeated)": lambda: T.avoids_set(args + args) is exp_a,
+        "all(p in T)": lambda: all(p in T for p in args) is exp_c,
+        "occurrences alias": lambda: all((T.occurrences(p) > 0) is ci for p, ci in zip(args, [c[i] for i in idxs])),
+    }
+    if basis is not None:
+        forms["avoids_set(Basis/MeshBasis)"] = lambda: T.avoids_set(basis) is exp_a
+        forms["avoids(*Basis/MeshBasis)"] = lambda: T.avoids(*basis) is exp_a
+    bad = []
+    for fname, f in forms.items():
+        try:
+            if not f():
+                bad.append(fname)
+        except Exception as exc:  # noqa
+            bad.append("%s: %r" % (fname, exc))
+    if bad:
+        part.violation("forms", case, {"forms_that_disagree": bad, "expected_contains_avoids": [exp_c, exp_a]})
 
 
 def shard_mixed(shard):
-    n, lo, hi, triples = shard
+    n, lo, hi, triples, forms = shard
     lib = _lib()
     part = Partial()
     objs = [o for _, o in _FAM["mixed"]]
@@ -615,16 +717,162 @@ def shard_mixed(shard):
     lists = list(itertools.product(range(m), repeat=2))
     if triples:
         lists += list(itertools.combinations(range(m), 3))
+    bases = {}
+    if forms:
+        for idxs in lists:
+            args = [objs[i] for i in idxs]
+            try:
+                if all(classical[i] for i in idxs):
+                    bases[idxs] = lib.Basis(*args)
+                else:
+                    bases[idxs] = lib.MeshBasis(*args)
+            except Exception:  # noqa   (construction of bases is C05's business)
+                bases[idxs] = None
     for t in R.perms(n)[lo:hi]:
         T = lib.Perm(t)
         tab = Tables(t)
         c = [bool(tab.ref(s)[0]) for s in MIXED_POOL]
         for idxs in lists:
-            check_mixed(part, T, t, idxs, objs, c)
+            check_mixed(part, T, t, idxs, objs, c, bases[idxs] if forms else _NOFORMS)
+            if forms:
+                part.bump("forms:argument-lists-x-texts")
             mixed_types = any(classical[i] for i in idxs) and not all(classical[i] for i in idxs)
             split = any(c[i] for i in idxs) and not all(c[i] for i in idxs)
             part.add(1, 1 if (mixed_types and split) else 0)
         part.bump("mixed:argument-lists-x-texts", len(lists))
+    return part
+
+
+# --------------------------------------------------------------------------------------------
+# ABORT: an exception out of the middle of a search (Ctrl-C, an exception in the caller's loop
+# body) must leave the pattern object, the text object and every module-level table usable
+# --------------------------------------------------------------------------------------------
+
+class _Abort(BaseException):
+    pass
+
+
+def _run_with_abort(fn, k, root):
+    """Run fn(); raise _Abort at the k-th 'call' event of a frame whose code lives under root
+    (k=None: never).  Returns (finished?, number of such events seen)."""
+    import sys
+    seen = [0]
+
+    def tracer(frame, event, arg):
+        if event == "call" and frame.f_code.co_filename.startswith(root):
+            seen[0] += 1
+            if seen[0] == k:
+                sys.settrace(None)
+                raise _Abort()
+        return None
+
+    sys.settrace(tracer)
+    try:
+        fn()
+        return True, seen[0]
+    except _Abort:
+        return False, seen[0]
+    finally:
+        sys.settrace(None)
+
+
+ABORT_SPECS = [
+    mesh_spec((), [(0, 0)]),
+    mesh_spec((0,), [(0, 1)]),
+    mesh_spec((0, 1), [(1, 1)]),
+    mesh_spec((1, 0, 2), [(1, 2), (2, 2), (2, 3)]),
+    mesh_spec((2, 1, 0), [(1, 0), (1, 1), (2, 2)]),
+    ("vinc", (1, 2, 0), (1,), ()),
+    ("covinc", (0, 2, 1), (), (1, 2)),
+    ("biv", (0, 1, 2), (1,), (2,)),
+]
+ABORT_TEXTS = [(3, 1, 0, 2, 4), (0, 2, 4, 1, 3, 5)]
+ABORT_OPS = ("list", "contains", "avoids2", "count")
+
+
+def _abort_op(op, obj, other, T):
+    if op == "list":
+        list(obj.occurrences_in(T))
+    elif op == "contains":
+        T.contains(obj)
+    elif op == "avoids2":
+        T.avoids(other, obj)
+    elif op == "count":
+        T.count_occurrences_of(obj)
+
+
+def abort_case(part, si, ti, op, warm, k, total_only=False):
+    """One injection point.  Objects are new for every attempt (so the memo of the underlying Perm
+    is being built when the exception strikes) unless warm (then they have answered a query
+    before).  Read back on the same objects, on another text, and on new equal objects."""
+    import os
+    import signal
+    import sys
+    from ..core import REPO
+    lib = _lib()
+    root = os.path.join(os.path.abspath(REPO), "permuta") + os.sep
+    spec, t = ABORT_SPECS[si], ABORT_TEXTS[ti]
+    t2 = ABORT_TEXTS[1 - ti]
+    other_spec = ABORT_SPECS[(si + 3) % len(ABORT_SPECS)]
+    obj, other, T, T2 = make(spec), make(other_spec), lib.Perm(t), lib.Perm(t2)
+    if warm:
+        list(obj.occurrences_in(T2))
+        list(other.occurrences_in(T2))
+    # an injection that lands in the finalisation of an abandoned generator is reported by the
+    # interpreter as "Exception ignored in ..." - expected here, not worth a line on stderr
+    hook0 = sys.unraisablehook
+    sys.unraisablehook = lambda unraisable: None
+    try:
+        finished, total = _run_with_abort(lambda: _abort_op(op, obj, other, T), k, root)
+    finally:
+        sys.unraisablehook = hook0
+    if total_only:
+        return total
+    ref, ref2, refo = naive_ref(spec, t), naive_ref(spec, t2), naive_ref(other_spec, t)
+    case = {"spec": spec_case(spec), "text": list(t), "op": op, "warm": warm, "abort_at_call": k,
+            "si": si, "ti": ti}
+
+    def on_alarm(signum, frame):
+        raise TimeoutError("read-back did not finish within 20 s")
+
+    old = signal.signal(signal.SIGALRM, on_alarm)
+    old_hook = sys.unraisablehook
+    sys.unraisablehook = lambda unraisable: None
+    signal.alarm(20)
+    try:
+        got = {
+            "same objects": sorted(obj.occurrences_in(T)),
+            "same pattern, other text": sorted(obj.occurrences_in(T2)),
+            "other pattern, same text": sorted(other.occurrences_in(T)),
+            "new equal objects": sorted(make(spec).occurrences_in(lib.Perm(t))),
+            "contains": T.contains(obj),
+            "avoids": T.avoids(obj, other),
+        }
+        exp = {"same objects": ref, "same pattern, other text": ref2, "other pattern, same text": refo,
+               "new equal objects": ref, "contains": bool(ref), "avoids": not ref and not refo}
+        bad = [key for key in exp if got[key] != exp[key]]
+        if bad:
+            part.violation("abort", case, {"wrong_after_abort": bad, "got": {b: got[b] for b in bad},
+                                           "expected": {b: exp[b] for b in bad}})
+    except TimeoutError as exc:
+        part.violation("abort", case, {"hang": str(exc)})
+    except Exception as exc:  # noqa
+        part.violation("abort", case, {"exception_in_read_back": repr(exc)})
+    finally:
+        signal.alarm(0)
+        signal.signal(signal.SIGALRM, old)
+        sys.unraisablehook = old_hook
+    part.add(1, 0 if finished else 1)
+    return total
+
+
+def shard_abort(shard):
+    si, ti, op, warm = shard
+    part = Partial()
+    total = abort_case(part, si, ti, op, warm, None, total_only=True)
+    for k in range(1, total + 1):
+        abort_case(part, si, ti, op, warm, k)
+    part.bump("abort:injection-points", total)
     return part
 
 
@@ -751,9 +999,33 @@ def run(ctx, only=None):
         ttop = 4 if quick else 5
         for n in range(0, top + 1):
             for lo, hi in chunks(n, 6 if n <= 5 else 12):
-                jobs.append((shard_mixed, (n, lo, hi, n <= ttop)))
+                jobs.append((shard_mixed, (n, lo, hi, n <= ttop, n <= ttop)))
         ctx.bounds["mixed"] = {"pool": len(MIXED_POOL), "lists": "all ordered pairs (texts S<=%d) and "
-                               "unordered triples (texts S<=%d)" % (top, ttop)}
+                               "unordered triples (texts S<=%d)" % (top, ttop),
+                               "forms": "for texts S<=%d every argument list also reversed, repeated, as tuple / set / "
+                                        "frozenset / generator / map / keyword, through `in` and the `occurrences` alias, "
+                                        "and as Basis / MeshBasis object (avoids only)" % ttop}
+
+    if want("forms"):
+        if "mesh2" not in _FAM:
+            build_family("mesh2", fam_mesh_all(2), ctx)
+        nm = len(_FAM["mesh2"])
+        jobs += [(shard_meshforms, (lo, min(nm, lo + 40))) for lo in range(0, nm, 40)]
+        ctx.bounds["forms"] = {"MeshPatt(pattern, shading)": "all %d mesh patterns of length <= 2, shading given in %d forms "
+                               "(%s), positional and by keyword, occurrences in every text of S<=3" % (
+                                   nm, len(SHADING_FORMS), ", ".join(SHADING_FORMS)),
+                               "Bivincular/Vincular/CovincularPatt": "see bivreq: 9 forms x positional/keyword for all "
+                                                                     "patterns of length <= 3"}
+
+    if want("abort"):
+        shards = [(si, ti, op, warm) for si in range(len(ABORT_SPECS)) for ti in range(len(ABORT_TEXTS))
+                  for op in ABORT_OPS for warm in (False, True)]
+        jobs += [(shard_abort, sh) for sh in shards]
+        ctx.bounds["abort"] = {"operations": list(ABORT_OPS), "patterns": len(ABORT_SPECS), "texts": ABORT_TEXTS,
+                               "objects": "new (memo of the underlying Perm not built yet) and warm",
+                               "injection": "a BaseException at EVERY 'call' event inside permuta/ during the operation "
+                                            "(see counter abort:injection-points)",
+                               "read_back": "same objects, other text, other pattern, new equal objects, contains, avoids"}
 
     ctx.pmap(_dispatch, jobs_register(jobs))
     ctx.section("all", evaluations=ctx.evals, nontrivial=ctx.nontrivial, shards=len(jobs))
@@ -795,27 +1067,47 @@ def replay(ctx, rec):
             make(spec)
         except Exception as exc:  # noqa
             ctx.violation("construct", spec_case(spec), {"exception": repr(exc)})
-    elif sub == "bivreq":
+    elif sub in ("bivreq", "fresh"):
         c = dict(case)
         c.pop("form", None)
+        c.pop("keyword", None)
         check_bivreq(ctx, case_spec(c))
-    elif sub == "mixed":
+    elif sub == "abort":
+        abort_case(ctx, case["si"], case["ti"], case["op"], case["warm"], case["abort_at_call"])
+    elif sub == "forms" and "patts" not in case:
+        c = dict(case)
+        fname, kw = c.pop("form"), c.pop("keyword")
+        c.pop("text", None)
+        spec = case_spec(c)
+        P = lib.Perm(spec[1])
+        f = SHADING_FORMS[fname]
+        try:
+            obj = lib.MeshPatt(pattern=P, shading=f(spec[2])) if kw else lib.MeshPatt(P, f(spec[2]))
+            for n in range(4):
+                for t in R.perms(n):
+                    T = lib.Perm(t)
+                    got = sorted(obj.occurrences_in(patt=T)) if kw else sorted(obj.occurrences_in(T))
+                    if got != R.mesh_occurrences(spec[1], spec[2], t):
+                        ctx.violation("forms", case, {"text": list(t), "got": got})
+                        return
+        except Exception as exc:  # noqa
+            ctx.violation("forms", case, {"exception": repr(exc)})
+    elif sub in ("mixed", "forms"):
         specs = [case_spec(c) for c in case["patts"]]
         t = tuple(case["text"])
         T = lib.Perm(t)
+        idxs = tuple(MIXED_POOL.index(sp) for sp in specs)
         try:
-            args = [make(s) for s in specs]
+            objs = [make(sp) for sp in MIXED_POOL]
         except Exception as exc:  # noqa
             ctx.violation("mixed", case, {"exception": repr(exc)})
             return
-        c = [bool(naive_ref(s, t)) for s in specs]
-        exp_c, exp_a = all(c), not any(c)
+        c = [bool(naive_ref(sp, t)) for sp in MIXED_POOL]
+        args = [objs[i] for i in idxs]
         try:
-            got = (T.contains(*args), T.avoids(*args), T.avoids_set(args), T.avoids_set(iter(args)))
-        except Exception as exc:  # noqa
-            ctx.violation("mixed", case, {"exception": repr(exc)})
-            return
-        if got != (exp_c, exp_a, exp_a, exp_a):
-            ctx.violation("mixed", case, {"expected": [exp_c, exp_a, exp_a, exp_a], "got": list(got)})
+            basis = lib.Basis(*args) if all(sp[0] == "perm" for sp in specs) else lib.MeshBasis(*args)
+        except Exception:  # noqa
+            basis = None
+        check_mixed(ctx, T, t, idxs, objs, c, basis)
     else:
         raise ValueError("unknown sub-check %r" % sub)
